@@ -1,6 +1,6 @@
 /*
  * C13-H2: / ? n N (with a count, with an empty pattern that reuses the last one, and ^A) in the real
- * editor.  A fixed buffer with five occurrences of "ab"; symbolic start position; K search commands
+ * editor.  A fixed buffer with eight occurrences of "ab"; symbolic start position; K search commands
  * chosen by the solver; then a marker is typed at the cursor.  Model: the sorted list of occurrences;
  * forward = first one after the cursor, backward = last one before it, no wrap-around; n repeats in the
  * direction of the last / or ?, N in the opposite one; a search that finds nothing leaves the cursor.
@@ -9,13 +9,14 @@
 #ifndef K
 #define K 2
 #endif
-static const char *FILE0 = "ab x ab\ncab ab\nzz\nab\n";
-static const int occ[5][2] = {{0, 0}, {0, 5}, {1, 1}, {1, 4}, {3, 0}};
-static const int linelen[4] = {7, 6, 2, 2};
+static const char *FILE0 = "ab x ab\ncab ab\nababab\nab\n";	/* adjacent occurrences too */
+#define NOCC 8
+static const int occ[NOCC][2] = {{0, 0}, {0, 5}, {1, 1}, {1, 4}, {2, 0}, {2, 2}, {2, 4}, {3, 0}};
+static const int linelen[4] = {7, 6, 6, 2};
 static int fwd(int *r, int *o)
 {
 	int i;
-	for (i = 0; i < 5; i++)
+	for (i = 0; i < NOCC; i++)
 		if (occ[i][0] > *r || (occ[i][0] == *r && occ[i][1] > *o)) {
 			*r = occ[i][0]; *o = occ[i][1];
 			return 0;
@@ -25,7 +26,7 @@ static int fwd(int *r, int *o)
 static int bwd(int *r, int *o)
 {
 	int i;
-	for (i = 4; i >= 0; i--)
+	for (i = NOCC - 1; i >= 0; i--)
 		if (occ[i][0] < *r || (occ[i][0] == *r && occ[i][1] < *o)) {
 			*r = occ[i][0]; *o = occ[i][1];
 			return 0;
